@@ -324,7 +324,26 @@ def _immutable_literal(node) -> bool:
     if isinstance(node, ast.Tuple):
         return all(_immutable_literal(e) or isinstance(e, ast.Constant) or
                    (isinstance(e, (ast.Attribute, ast.Name)) and dotted(e) is not None) for e in node.elts)
+    if isinstance(node, ast.Call) and isinstance(node.func, ast.Name) and node.func.id in ("frozenset", "tuple") \
+            and len(node.args) == 1 and not node.keywords and isinstance(node.args[0], (ast.Tuple, ast.List, ast.Set)):
+        return _immutable_literal(ast.Tuple(elts=node.args[0].elts, ctx=ast.Load()))
     return False
+
+
+def _elem_term(it, site, n, symbolic_index=False):
+    """the n-th element drawn from iterable term `it`.  enumerate(X[, start]) and zip(A, B, ..) are looked through:
+    their n-th element is the pair (n + start, n-th of X) resp. the tuple of n-th elements, so that an index
+    variable added to a loop does not change what the loop variable is"""
+    if it[0] == "call" and it[1] == ("ext", "enumerate") and 1 <= len(it[2]) <= 2 and not symbolic_index:
+        start = it[2][1] if len(it[2]) == 2 else None
+        for k, v in it[3]:
+            if k == "start":
+                start = v
+        idx = const(n) if start is None else fold_binop("+", const(n), start)
+        return ("tuple", (idx, _elem_term(it[2][0], site, n)))
+    if it[0] == "call" and it[1] == ("ext", "zip") and it[2] and not it[3]:
+        return ("tuple", tuple(_elem_term(x, site, n, symbolic_index) for x in it[2]))
+    return ("elem", it, site, n)
 
 
 def _filter_calls_element_method(g: ast.comprehension) -> bool:
@@ -996,7 +1015,7 @@ class Engine:
                     if bound is not None:
                         s1.conds = [c for c in s1.conds if not (c[2] is stmt and c[0][2] == bound)]
                         s1.conds.append((("cmp", ">", bound, const(n)), True, stmt, fi))
-                    el = elems[n] if elems is not None else ("elem", it, site, n)
+                    el = elems[n] if elems is not None else _elem_term(it, site, n)
 
                     def bind(sb, ch, el=el):
                         self._assign(stmt.target, el, sb, fi, depth, ch)
@@ -1709,6 +1728,10 @@ class Engine:
             if attr.startswith("__") and not attr.endswith("__") and fi.cls is not None:
                 owner = fi.cls
                 if attr in owner.consts:
+                    if _immutable_literal(owner.consts[attr]) and attr not in owner.attr_init:
+                        v = self._eval_in_class(owner.consts[attr], owner.qual)
+                        if v[0] != "unknown":
+                            return v
                     return ("classconst", owner.qual, attr)
             m = self.prog.lookup_method(cq, attr)
             if m is not None:
@@ -1728,6 +1751,10 @@ class Engine:
                 owner, cnode = c
                 if isinstance(cnode, ast.Constant):
                     return const(cnode.value)
+                if _immutable_literal(cnode) and attr not in self.prog.classes[owner].attr_init:
+                    v = self._eval_in_class(cnode, owner)
+                    if v[0] != "unknown":
+                        return v
                 return ("classconst", owner, attr)
         return ("attr", base, attr)
 
@@ -1792,7 +1819,7 @@ class Engine:
             return self._comp_as_loop(node, s, fi, depth, ch, saved)
         for gi, g in enumerate(node.generators):
             it = first_it if gi == 0 and first_it is not None else self._eval(g.iter, s, fi, depth, ch)
-            el = ("elem", it, self.site(g.iter, fi), 0)
+            el = _elem_term(it, self.site(g.iter, fi), 0, symbolic_index=True)
             self._assign(g.target, el, s, fi, depth, ch)
             conds = tuple(self._eval(c, s, fi, depth, ch) for c in g.ifs)
             gens.append((el, it, conds))
@@ -1824,7 +1851,7 @@ class Engine:
         try:
             for i in range(n):
                 s.env["$iter"] = (outer_iter or ()) + ((node.lineno, i),)
-                el = elems[i] if elems is not None else ("elem", it, site, i)
+                el = elems[i] if elems is not None else _elem_term(it, site, i)
                 self._assign(g.target, el, s, fi, depth, ch)
                 keep = True
                 for cnode in g.ifs:
@@ -1913,6 +1940,9 @@ class Engine:
                 return (name, args[0][1])
             if name in ("tuple", "list") and not args:
                 return (name, ())
+            if name == "frozenset" and len(args) == 1 and not kwargs and args[0][0] in ("tuple", "list", "set") \
+                    and not any(x[0] == "starred" for x in args[0][1]):
+                return ("set", tuple(args[0][1]))
             if name == "len" and len(args) == 1 and args[0][0] in ("tuple", "list") \
                     and not any(e[0] == "starred" for e in args[0][1]):
                 return const(len(args[0][1]))
